@@ -16,6 +16,9 @@ class unit:
     def __eq__(self, other):
         return isinstance(other, unit)
 
+    def __hash__(self):
+        return hash(unit)
+
     def __lt__(self, other):
         return False
 
